@@ -239,12 +239,92 @@ def inline_closures(text, fn_id, names, log):
     return text
 
 
+def _split_top_commas(t):
+    out, depth, cur = [], 0, ""
+    for ch in t:
+        if ch in "([{<":
+            depth += 1
+        elif ch in ")]}>":
+            depth -= 1
+        if ch == "," and depth == 0:
+            out.append(cur)
+            cur = ""
+        else:
+            cur += ch
+    if cur.strip():
+        out.append(cur)
+    return [x.strip() for x in out]
+
+
+def inline_helpers(text, item, fn_id, known, log):
+    """Calls of SIMPLE free functions of the same source file that the unit does not provide (`known`) are replaced by
+    `{ let p1: T1 = a1; ..; <body> }` -- what a call of a function means when its body has no `return`, no `?`, no loop, no closure and no macro
+    definition.  A helper a refactoring split off is thus judged as part of its caller instead of being a lost anchor; anything not simple is left
+    alone (the run is then undecided as before).  On the unchanged tree nothing is inlined."""
+    src = open(item.path).read()
+    m0 = text.index("{")
+    for hm in re.finditer(r"(?m)^(?:pub(?:\s*\([a-z]+\))?\s+)?fn (\w+)\s*\(", src):
+        name = hm.group(1)
+        if name in known or not re.search(r"(?<![\w.:])%s\(" % re.escape(name), text[m0:]):
+            continue
+        k = src.index("(", hm.start())
+        depth, e = 0, k
+        while True:
+            depth += src[e] in "([{"
+            depth -= src[e] in ")]}"
+            if depth == 0:
+                break
+            e += 1
+        params = _split_top_commas(src[k + 1:e])
+        b = src.index("{", e)
+        depth, f = 0, b
+        while True:
+            depth += src[f] == "{"
+            depth -= src[f] == "}"
+            if depth == 0:
+                break
+            f += 1
+        body = src[b:f + 1]
+        for pat, rep in GLOBAL_DROPS:
+            body = re.sub(pat, rep, body)
+        body = re.sub(r"//[^\n]*", "", body)
+        if re.search(r"\breturn\b|\?|\b(loop|while|for)\b|(?:[(,=]\s*)(?:move\s+)?\|[^|\n]*\||macro_rules!", body) or any(":" not in q or q.split(":")[0].strip().startswith(("mut ", "&", "self")) for q in params):
+            continue
+        out, pos, n = "", m0, 0
+        head = text[:m0]
+        rest = text[m0:]
+        while True:
+            cm = re.search(r"(?<![\w.:])%s\(" % re.escape(name), rest)
+            if not cm:
+                break
+            a = cm.end() - 1
+            depth, z = 0, a
+            while True:
+                depth += rest[z] in "([{"
+                depth -= rest[z] in ")]}"
+                if depth == 0:
+                    break
+                z += 1
+            args = _split_top_commas(rest[a + 1:z])
+            if len(args) != len(params):
+                raise LostAnchor("%s: call of helper %s with %d argument(s), %d parameter(s)" % (fn_id, name, len(args), len(params)))
+            lets = "".join("let %s = %s; " % (q, x) for q, x in zip(params, args))
+            out += rest[:cm.start()] + "{ " + lets + body + " }"
+            rest = rest[z + 1:]
+            n += 1
+        text = head + out + rest
+        log.append("%s: %d call(s) of the same-file helper `%s` replaced by its body with the parameters let-bound (the helper has no return / ? / loop / closure)" % (fn_id, n, name))
+    return text
+
+
 def build_fn(item, spec, canary, log):
     """Return (text, clause_marks, canary_marks); marks are (line offset within text, info)."""
     fn_id = spec.get("id") or (("%s::" % spec["container_name"]) if spec.get("container_name") else "") + spec["name"]
     text = item.text
     for pat, rep in GLOBAL_DROPS:
         text = re.sub(pat, rep, text)
+    if spec.get("inline_helpers") is not None and item.kind == "fn":
+        text = inline_helpers(text, item, fn_id, set(spec["inline_helpers"]) | {spec["name"]}, log)
     if spec.get("inline_closures"):
         text = inline_closures(text, fn_id, spec["inline_closures"], log)
     text = _apply_rewrites(text, spec.get("rewrites"), fn_id, log)
